@@ -59,10 +59,23 @@ class SplineDofs(NativeBounded):
                'tables-satisfy-the-invariant-assumed-for-StructuredBasis')
 
 
+class DiscontPartition(NativeBounded):
+    """_DiscontinuousPartitionBasis (Basis.discontinuous_at_partition_interfaces): one new dof per distinct (part, parent dof) pair, element dof
+    lists are the images of the parent's, coefficients unchanged, get_support is the inverse of get_dofs and stays inside one part -- for every
+    assignment of the elements of 5 small meshes to <= 3 parts, incl. descending and gapped part numbers (BOUNDED native enumeration)."""
+    prop = PROP
+    fn = 'function:_DiscontinuousPartitionBasis.__init__'
+    module = 'c12d'
+    label = 'native-enumeration'
+    call = 'discont_partition()'
+    bounded = 'exhaustive native enumeration: 1-D (3, 4 elements; std degree 1, 2; spline degree 2) and 2x2 meshes, every part assignment over {0, 1, 3} (243 cases)'
+    clauses = ('dofs-are-the-distinct-(part,parent-dof)-pairs', 'coefficients-are-the-parents', 'support-is-the-inverse-of-the-dof-lists', 'support-lies-inside-one-part')
+
+
 # candidate defect (notes/C12-c12b.md, D3): with exactly two elements in a periodic direction the two elements share TWO interfaces and
 # util.index(self.connectivity[jelem], ielem) picks the first one for both, so the wrong sides are merged.  Fails on the unchanged tree.
 PARKED = []
 
 
 def contracts():
-    return [EdgeDofs('simplex'), EdgeDofs('tensor'), C0Merge(False), SplineDofs(), C0Merge(True)]  # C0Merge(True): recorded KNOWN FINDING (carve-out: C0Merge(False))
+    return [EdgeDofs('simplex'), EdgeDofs('tensor'), C0Merge(False), SplineDofs(), DiscontPartition(), C0Merge(True)]  # C0Merge(True): recorded KNOWN FINDING (carve-out: C0Merge(False))
